@@ -160,6 +160,22 @@ impl<Args> RepeatTask<Args> {
       seq: 0,
     }
   }
+
+  /// A repeating task whose first run is due as soon as it is polled, and
+  /// every later one `dur` after the previous.
+  pub fn starting_now(
+    dur: Duration,
+    task: fn(&mut Args, usize) -> bool,
+    args: Args,
+  ) -> Self {
+    Self {
+      fur: Box::pin(std::future::ready(())),
+      interval: dur,
+      task,
+      args,
+      seq: 0,
+    }
+  }
 }
 
 pub struct SubscribeReturn<T: Subscription>(T);
